@@ -99,6 +99,44 @@ CHECKS = {
         'Trusted: TLC, strace (-P path filter, inject=...:signal=SIGKILL:when=k), the log-to-script parser and file projections in '
         'harness/c09_*.py. SIGKILL semantics (page cache survives); power loss only as the fsync-before-rename ordering law.',
         'DESIGN.md section 5, C09 and section 10'),
+    'C06': (
+        'TLC: configurator state machine (ConfigDeterminism) with ideal generator satisfies Functional/Quiescent/Untouched on all '
+        'histories within the bound and refutes them for four faulty generators; trace validation of real `meson setup/--reconfigure/'
+        '--wipe/configure` runs of generated and corpus projects under varied hash seed, environment order, readdir order and build-dir '
+        'history by TraceConfigDeterminism.tla',
+        'Model checking of a small configurator state machine (2 keys x 3 environments, histories <= 5 commands): same key => same '
+        'bytes, no-change reconfigure changes no digest and no mtime of a kept output, both formulations of the judge agree, faulty '
+        'generators are refuted. Binding: each project\'s recorded history (command, key, environment, {file -> sha256, mtime_ns, kept}) '
+        'from real CLI runs at a fixed absolute path is judged by TLC with the same operators; TLC names clause, file and the pair of '
+        'runs. History shapes are exported by the model.',
+        'The spec is thin by nature (a hyper-property over environment nondeterminism: bookkeeping, not insight); the power is in the '
+        'driver (hash seed, environ order incl. exact reversal, listdir/scandir order via an add-only sitecustomize, fresh/reconfigured/'
+        'toggled/wiped directories). Trusted: TLC, the file projection and the kept classification (harness/c06_determinism.py), sha256.',
+        'DESIGN.md section 5, C06 and section 10'),
+    'C10': (
+        'TLC: DepLookup decision table (3,240 configurations x lookup sequences <= 3, 15 laws) and WrapFetch pipeline (fetch -> verify '
+        '-> unpack -> patch -> diff as a step machine run twice, 6 laws); trace validation (TraceDepLookup, TraceWrapFetch) of real '
+        '`meson setup` / `meson subprojects download` runs on materialised cells and wrap scenarios',
+        'Model checking of specs/deps: the documented fallback policy as a function Lookup(cfg, state, args) with OverrideWins / '
+        'ForcedNeverConsultsSystem / NofallbackNeverConfigures / RequiredNotFoundIsError / RepeatStable ... over the full cross product, '
+        'and the wrap acquisition pipeline with NeverUnpackBadHash / NodownloadFetchesNothing / FailedPatchLeavesNoDir / '
+        'SecondRunNeverAcceptsHalfPrepared. Every cell of the table (thorough: all 48,600; quick: seeded 3,780 histories) and the wrap '
+        'scenarios are replayed on the real CLI (private PKG_CONFIG_LIBDIR, logging pkg-config wrapper, file:// URLs with real archives) '
+        'and TLC judges each recorded history step by step.',
+        'Trusted: TLC, the cell renderer and observation parser (harness/depdrv_*.py), pkg-config as the system. One name and one '
+        'candidate subproject per cell; [wrap-file] wraps only; sequences longer than 3 and VCS wraps are not covered.',
+        'DESIGN.md section 5, C10 and section 10'),
+    'C05': (
+        'TLC: Ninja scheduling rule Run(e) over manifests with observed reads/probes/writes (specs/ninja/BuildSched): all graphs of 3 '
+        'statements x all schedules (behavioural laws = declarative ancestor-closure laws = compiled form), vacuity guards; trace '
+        'validation of real builds (reference executor + strace, 3 adversarial real schedules, per-statement hermetic replay) by '
+        'TraceBuildSched.tla; every schedule of every recorded graph explored by TraceBuildSchedAll.tla',
+        'Hermetic, StableProbes, NoUndeclaredWrite and Confluent are invariants checked by TLC over every prefix-closed statement set of '
+        'each concrete generated graph, so they are decided for all topological orders rather than sampled. Real adversarial schedules '
+        'and hermetic replays must be behaviours of the rule, exit 0 and reproduce digests.',
+        'Needs and Writes are observational (one strace\'d run). Manifest reading and execution rest on ninja_ref and c05_exec because no '
+        'ninja binary exists. Graphs above the state cap are judged by the declarative form. .gch bytes are ignored.',
+        'DESIGN.md section 5, C05 and section 10'),
 }
 
 NOT_YET = {}
